@@ -176,9 +176,31 @@ func TestC19ChooseParents(t *testing.T) {
 		}
 
 		exEvents, optEvents := toEvents(existing), toEvents(options)
+		// the existing-parents list is a reused buffer with spare capacity in half of the cases
+		spare := rapid.Bool().Draw(t, "existingParentsBufferHasSpareCapacity")
+		if spare {
+			buf := make(hash.Events, len(exEvents), len(exEvents)+10)
+			copy(buf, exEvents)
+			exEvents = buf
+		}
 		exCopy, optCopy := exEvents.Copy(), optEvents.Copy()
 		res := ancestor.ChooseParents(exEvents, optEvents, strategies)
 		got := toIDs(res)
+		if spare {
+			// a second selection from the same buffer (other options, simple strategies) must not rewrite the first result
+			other := make(hash.Events, 0, 4)
+			for k := 0; k < 4; k++ {
+				other = append(other, ev((k*3+1)%universe))
+			}
+			second := make([]ancestor.SearchStrategy, len(strategies))
+			for i := range second {
+				second[i] = rankStrategy{i}
+			}
+			_ = ancestor.ChooseParents(exEvents, other, second)
+			if now := toIDs(res); fmt.Sprint(now) != fmt.Sprint(got) {
+				t.Fatalf("a second ChooseParents call from the same existing-parents buffer changed the first result from %v to %v\nexisting=%v options=%v", got, now, existing, options)
+			}
+		}
 
 		fail := func(format string, args ...interface{}) {
 			t.Fatalf("%s\nexisting=%v options=%v strategies=%+v result=%v", fmt.Sprintf(format, args...), existing, options, specs, got)
